@@ -1,5 +1,6 @@
 import TcVerif.Driver.Util
 import TcVerif.Model.Chain
+import TcVerif.Driver.Seal
 /-!
 # Driver, family `backend`: Server-trait calls against `ChainSpec`
 
@@ -9,6 +10,7 @@ namespace Tc.Driver
 
 structure BState where
   srv : ChainSrv := {}
+  sealSt : SealState := {}
   snapshotsKept : Bool := true     -- `local` never stores snapshots
 
 def symId (tok : String) : Option Nat :=
@@ -53,7 +55,92 @@ def backendLine (s : BState) (line : String) : BState × List String :=
         | none => (s, [s!"snap {fmtSym v} <never-stored>"])
       | none => (s, ["bad-op"])
   | "REOPEN" :: _ => (s, ["reopened"])
+  | "KEY" :: _ | "OPEN" :: _ =>
+    -- what the backend really stored for a version: opened with a key the model derives itself
+    let (ss, outs) := sealLine s.sealSt line
+    ({ s with sealSt := ss }, outs)
   | [""] => (s, [])
   | _ => (s, ["bad-op"])
+
+/-! ## Judge: the chain rules evaluated on what the implementation answered
+
+State is rebuilt from the implementation's own answers (an accepted version is whatever it said
+`ok v<k>` to), so one wrong answer does not cascade. -/
+
+structure BJ where
+  hdr : String := ""
+  cmd : List String := []
+  local_ : Bool := false
+  accepted : List (Nat × Nat × String) := []      -- (k, parent, bytes), oldest first
+  snaps : List (Nat × String) := []               -- stored, oldest first
+  fails : List String := []
+
+def BJ.latest (j : BJ) : Nat := match j.accepted.getLast? with | some (k, _, _) => k | none => 0
+
+def BJ.fail (j : BJ) (f : String) : BJ := { j with fails := j.fails ++ [f] }
+
+/-- one answer line of the implementation, for the command in `j.cmd` -/
+def bjAnswer (j : BJ) (l : String) : BJ :=
+  let ws := l.splitOn " "
+  if l == "panic" || l.startsWith "err" then j.fail s!"noerr {(j.cmd.take 1)} {l.take 60}"
+  else match j.cmd with
+  | ["AV", _, p, b] =>
+    match symId p, ws with
+    | some p, ["ok", v] =>
+      let k := (symId v).getD 0
+      let j := if j.accepted.isEmpty || p == j.latest then j
+               else j.fail s!"linear accepted-parent-{fmtSym p}-while-latest-{fmtSym j.latest}"
+      let j := if k == j.accepted.length + 1 then j else j.fail s!"linear id-reused {v}"
+      { j with accepted := j.accepted ++ [(k, p, b)] }
+    | some p, ["exp", lv] =>
+      let j := if (symId lv) == some j.latest then j else j.fail s!"linear rejection-names-{lv}-latest-{fmtSym j.latest}"
+      if j.accepted.isEmpty || p == j.latest then j.fail s!"linear rejected-child-of-latest-{fmtSym p}" else j
+    | _, _ => j.fail s!"parse AV {l.take 60}"
+  | ["GC", _, p] =>
+    match symId p with
+    | some p =>
+      match j.accepted.find? (·.2.1 == p), ws with
+      | some (k, _, b), [v, par, b'] =>
+        if symId v == some k && par == s!"parent={fmtSym p}" && b' == b then j
+        else j.fail s!"child wrong-child-of-{fmtSym p} got={v} want={fmtSym k} bytes-equal={b' == b}"
+      | some (k, _, _), _ => j.fail s!"child lost-child-of-{fmtSym p} want={fmtSym k} got={l.take 40}"
+      | none, ["none"] => j
+      | none, _ => j.fail s!"child invented-child-of-{fmtSym p} got={l.take 40}"
+    | none => j
+  | ["AS", _, v, b] =>
+    match symId v with
+    | some v => if l == "ok" then { j with snaps := j.snaps ++ [(v, b)] } else j.fail s!"snapshot add {l.take 40}"
+    | none => j
+  | ["GS", _, "->", _] =>
+    match ws with
+    | ["none"] => if j.local_ || j.snaps.isEmpty then j else j.fail "snapshot stored-but-none"
+    | ["snap", v, b] =>
+      match symId v with
+      | some v =>
+        match j.snaps.reverse.find? (·.1 == v) with
+        | some (_, b0) => if b0 == b then j else j.fail s!"snapshot bytes-differ {fmtSym v}"
+        | none => j.fail s!"snapshot never-stored {fmtSym v}"
+      | none => j.fail "parse GS"
+    | _ => j.fail s!"snapshot {l.take 40}"
+  | "OPEN" :: _ =>
+    -- the harness's line is `ok <submitted payload>`; the model side (diff) opens the real bytes
+    if l.startsWith "ok" then j else j.fail "sealed not-openable"
+  | _ => if l == "leak FOUND" then j.fail "sealed plaintext-in-stored-bytes" else j
+
+def bjFlush (j : BJ) : List String :=
+  if j.hdr.isEmpty then []
+  else match j.fails.eraseDups with
+    | [] => [s!"judge {j.hdr} :: ok"]
+    | fs => fs.map fun f => s!"judge {j.hdr} :: FAIL {f}"
+
+def bjLine (j : BJ) (l : String) : BJ × List String :=
+  if l.startsWith "# case" then ({ hdr := l }, bjFlush j)
+  else if l.startsWith "> " then
+    let c := (l.drop 2).toString.splitOn " "
+    match c with
+    | ["BACKEND", b] => ({ j with cmd := c, local_ := b == "local" }, [])
+    | _ => ({ j with cmd := c }, [])
+  else if l.startsWith "#" || l.isEmpty then (j, [])
+  else (bjAnswer j l, [])
 
 end Tc.Driver
